@@ -259,6 +259,12 @@ async def scenario(kind, labels, expected, clients_kind, repo_src):
                         lines.append(f"{lab} ; {normal(observe())}")
                         break
                     start_dt = asyncio.get_running_loop().time() - t0
+                elif kind == "tcp":
+                    # a second serve_forever() on a server that is serving (the model: nothing
+                    # changes).  On TCP the port is taken, the call fails with OSError; whatever
+                    # it does, the running server and its sessions must be unaffected
+                    with contextlib.suppress(OSError, asyncio.TimeoutError):
+                        await asyncio.wait_for(server.serve_forever(), STEP_TIMEOUT)
             elif w[0] == "connect":
                 ck = clients_kind[len(clients)] if len(clients) < len(clients_kind) else "raw"
                 c = CliClient(cli_args, env) if ck == "cli" else RawClient()
